@@ -175,10 +175,14 @@ func indTasks(r *core.Rand) []indTask {
 		damaged := append([]byte(nil), intact...)
 		damaged[len(damaged)-1-r.Pick(60)] ^= byte(1 + r.Pick(255))
 		cut := intact[:len(intact)-1-r.Pick(60)]
-		for _, v := range []struct {
+		variants := []struct {
 			name string
 			in   []byte
-		}{{"intact", intact}, {"damaged-signature", damaged}, {"cut-in-signature", cut}} {
+		}{{"intact", intact}, {"damaged-signature", damaged}, {"cut-in-signature", cut}}
+		// in any order: what persists after the first pass (a cache that only grows) is invisible to
+		// the later passes unless a near-collision ran BEFORE the intact structure in the first one
+		r.Shuffle(len(variants), func(a, b int) { variants[a], variants[b] = variants[b], variants[a] })
+		for _, v := range variants {
 			in := v.in
 			add("verify/"+sc.kind+"/"+v.name, func() string {
 				o := p.Fn(append([]byte(nil), in...))
